@@ -88,6 +88,9 @@ enum Entry {
     /// bit 0 name, 1 size, 2 align, 3 allow_uninit overridden
     Override(u8),
     Copy,
+    /// copy of a datum of a definition that was built under the *host* resolver: the copy carries
+    /// what its source says (host numbers), later additions must still get the resolver's answers
+    CopyForeign,
 }
 
 const OVR_NAME: &str = "Overridden";
@@ -95,7 +98,7 @@ const OVR_SIZE: usize = 20;
 const OVR_ALIGN: usize = 2;
 
 fn all_entries() -> Vec<Entry> {
-    let mut v = vec![Entry::Typed, Entry::Uninit, Entry::Dynamic, Entry::Copy];
+    let mut v = vec![Entry::Typed, Entry::Uninit, Entry::Dynamic, Entry::Copy, Entry::CopyForeign];
     v.extend((0..16).map(Entry::Override));
     v
 }
@@ -166,6 +169,10 @@ fn expected(ty: usize, entry: Entry) -> (String, usize, usize, bool) {
         Entry::Typed => (t.name.to_owned(), t.size, t.align, false),
         Entry::Uninit => (t.name.to_owned(), t.size, t.align, true),
         Entry::Dynamic | Entry::Copy => (t.name.to_owned(), t.size, t.align, t.copy),
+        Entry::CopyForeign => {
+            let (size, align) = host_layout(ty);
+            (t.name.to_owned(), size, align, false)
+        }
         Entry::Override(m) => (
             if m & 1 != 0 { OVR_NAME.to_owned() } else { t.name.to_owned() },
             if m & 2 != 0 { OVR_SIZE } else { t.size },
@@ -173,6 +180,13 @@ fn expected(ty: usize, entry: Entry) -> (String, usize, usize, bool) {
             m & 8 != 0,
         ),
     }
+}
+
+fn host_of<T>() -> (usize, usize) {
+    (std::mem::size_of::<T>(), std::mem::align_of::<T>())
+}
+fn host_layout(ty: usize) -> (usize, usize) {
+    with_type!(ty, host_of,)
 }
 
 fn applicable(ty: usize, entry: Entry) -> bool {
@@ -189,6 +203,17 @@ fn add_synth(b: &mut SB, name: &str, ty: usize, entry: Entry) -> Result<DatumId,
             // a datum of another definition, built under the same resolver
             let mut other = NativeRecordDefinitionBuilder::new(Synth);
             let id = other.add_dynamic_datum(name, TYPES[ty].name)?;
+            other.close_record_variant();
+            let def = other.build();
+            b.copy_datum(&def[id])
+        }
+        Entry::CopyForeign => {
+            let mut other = NativeRecordDefinitionBuilder::new(HostTypeResolver);
+            let (size, align) = host_layout(ty);
+            let id = other.add_datum_override::<(), _>(
+                name,
+                DatumDefinitionOverride { type_name: Some(TYPES[ty].name.to_owned()), size: Some(size), align: Some(align), allow_uninit: Some(false) },
+            )?;
             other.close_record_variant();
             let def = other.build();
             b.copy_datum(&def[id])
@@ -227,6 +252,7 @@ fn entry_from(v: &Value) -> Entry {
         Some("Typed") => Entry::Typed,
         Some("Uninit") => Entry::Uninit,
         Some("Dynamic") => Entry::Dynamic,
+        Some("CopyForeign") => Entry::CopyForeign,
         _ => Entry::Copy,
     }
 }
@@ -564,12 +590,13 @@ pub fn main(args: &Args, threads: usize) -> ! {
     transitions += single;
 
     // (2) typed histories: alphabet = 12 types x {typed, dynamic, copy, override(size+align)}
-    let entries = [Entry::Typed, Entry::Dynamic, Entry::Copy, Entry::Override(6)];
+    let entries = [Entry::Typed, Entry::Dynamic, Entry::Copy, Entry::Override(6), Entry::CopyForeign];
     let mut alphabet: Vec<(u8, Entry)> = vec![];
     for ty in 0..TYPES.len() {
         for (i, e) in entries.iter().enumerate() {
-            // rotate the entry points over the types (all 4 for the first four types) to bound the alphabet
-            if ty < 4 || i == ty % 4 {
+            // rotate the entry points over the types (all 5 for types whose host layout differs
+            // from the resolver's: u64, usize, String) to bound the alphabet
+            if [3usize, 5, 7].contains(&ty) || ty < 2 && i < 4 || i == ty % 5 {
                 alphabet.push((ty as u8, *e));
             }
         }
